@@ -170,11 +170,41 @@ pub fn read_dir_files(dir: &Path) -> BTreeMap<String, Vec<u8>> {
     m
 }
 
+/// How the two directories are named on the command line (env entry VERIF_PATH_FORM of the spec; default 0):
+/// 0 absolute; 1 relative to the current directory (= their parent); 2 absolute with a trailing slash; 3 relative with `.` and
+/// `..` components and trailing slashes; 4 through symbolic links; 5 current directory = the data directory (`-d .`, `../dump`).
+pub fn path_form(spec: &RunSpec, data: &Path, dump: &Path) -> (Option<PathBuf>, PathBuf, PathBuf) {
+    let form: u8 = spec.env.iter().find(|(k, _)| k == "VERIF_PATH_FORM").and_then(|(_, v)| v.parse().ok()).unwrap_or(0);
+    let parent = data.parent().unwrap_or(Path::new("/")).to_path_buf();
+    let name = |p: &Path| p.file_name().map(|n| n.to_string_lossy().into_owned()).unwrap_or_default();
+    match form {
+        1 => (Some(parent), PathBuf::from(name(data)), PathBuf::from(name(dump))),
+        2 => (None, PathBuf::from(format!("{}/", data.display())), PathBuf::from(format!("{}/", dump.display()))),
+        3 => (Some(parent), PathBuf::from(format!("./{0}/../{0}/", name(data))), PathBuf::from(format!("./{}/./", name(dump)))),
+        4 => {
+            let (ld, lp) = (parent.join("lnk-data"), parent.join("lnk-dump"));
+            let _ = fs::remove_file(&ld);
+            let _ = fs::remove_file(&lp);
+            let _ = std::os::unix::fs::symlink(data, &ld);
+            let _ = std::os::unix::fs::symlink(dump, &lp);
+            (None, ld, lp)
+        }
+        5 => (Some(data.to_path_buf()), PathBuf::from("."), PathBuf::from(format!("../{}", name(dump)))),
+        _ => (None, data.to_path_buf(), dump.to_path_buf()),
+    }
+}
+
 pub fn run_bin(bin: &Path, data: &Path, dump: &Path, spec: &RunSpec) -> RunResult {
     let mut cmd = Command::new(bin);
-    cmd.args(spec.argv(data, dump));
+    let (cwd, data_arg, dump_arg) = path_form(spec, data, dump);
+    cmd.args(spec.argv(&data_arg, &dump_arg));
+    if let Some(c) = cwd {
+        cmd.current_dir(c);
+    }
     cmd.env_clear();
-    cmd.env("RAYON_NUM_THREADS", spec.threads.to_string());
+    if spec.threads > 0 {
+        cmd.env("RAYON_NUM_THREADS", spec.threads.to_string());
+    }
     cmd.env("HOME", data);
     cmd.env("RUST_BACKTRACE", "0");
     // determinism shim (see faultfs/faultfs.c): fixed getrandom stream => fixed HashMap order, no read-sampling random walk
